@@ -60,6 +60,8 @@ def enc_f(x):
 def tilt_obj(lentil, e):
     if e[0] == 'ang':
         return lentil.Tilt(x=fl(e[1]), y=fl(e[2]))
+    if e[0] == 'dispn':
+        return lentil.DispersiveTilt(trace=[fl(v) for v in e[1]], dispersion=[fl(v) for v in e[2]])
     return lentil.DispersiveTilt(trace=[fl(e[1]), fl(e[2])], dispersion=[fl(e[3]), fl(e[4])])
 
 
@@ -72,10 +74,45 @@ def enc_tilt(e):
     return [1] + enc_f(e[1]) + enc_f(e[2]) + enc_f(e[3]) + enc_f(e[4]) + C.enc_q(root)
 
 
+def dispn_xy(trace, disp, wl):
+    """The displacement the property assigns to a dispersive element of any order, computed independently of
+    lentil: d = the real root of polyval(dispersion, d) = wl nearest the reference (d = 0; generated dispersion
+    polynomials are monotonic there), x = the abscissa whose arc length along y = polyval(trace, x) from 0 is d
+    (adaptive quadrature to 1e-13, bracketing root finder), y = polyval(trace, x)."""
+    import scipy.integrate
+    import scipy.optimize
+    q = np.array(disp, dtype=float)
+    q[-1] -= wl
+    real = [r.real for r in np.roots(q) if abs(r.imag) <= 1e-9 * (1 + abs(r))]
+    d = min(real, key=abs)
+    dq = np.polyder(q)
+    for _ in range(3):
+        d -= np.polyval(q, d) / np.polyval(dq, d)
+    tr = np.array(trace, dtype=float)
+    if d == 0:
+        x = 0.0
+    elif len(tr) == 2:
+        x = d / math.sqrt(1 + tr[0] ** 2)
+    else:
+        dt = np.polyder(tr)
+
+        def g(x):
+            return scipy.integrate.quad(lambda t: math.sqrt(1 + np.polyval(dt, t) ** 2), 0, x,
+                                        epsabs=0, epsrel=1e-13, limit=200)[0] - d
+        x = scipy.optimize.brentq(g, 0.0, d, xtol=1e-300, rtol=1e-15, maxiter=200)
+    return float(x), float(np.polyval(tr, x))
+
+
+def has_dispn(elems):
+    return any(e[0] == 'dispn' for e in elems)
+
+
 def elem_xy(e, z, wl):
     """displacement (x, y) in metres at the focal plane that the property assigns to one element"""
     if e[0] == 'ang':
         return -z * fl(e[2]), -z * fl(e[1])
+    if e[0] == 'dispn':
+        return dispn_xy([fl(v) for v in e[1]], [fl(v) for v in e[2]], wl)
     t0, t1, d0, d1 = (fl(v) for v in e[1:5])
     d = (wl - d1) / d0
     x = d / math.sqrt(1 + t0 * t0)
@@ -105,11 +142,11 @@ def read_shift(rd):
     return {'shift': s, 'fix': (fr, fc), 'sub': (subr, subc)}
 
 
-def close(a, b, tol):
-    return abs(a - b) <= tol * (1 + abs(b))
+def close(a, b, tol, unit=1.0):
+    return abs(a - b) <= tol * (unit + abs(b))
 
 
-def cmp_tilts(impl_t, model_t, tol):
+def cmp_tilts(impl_t, model_t, tol, unit=1.0):
     if len(impl_t) != len(model_t):
         return f'tilt lists differ in length: impl {len(impl_t)} model {len(model_t)}'
     for k, (a, b) in enumerate(zip(impl_t, model_t)):
@@ -117,7 +154,7 @@ def cmp_tilts(impl_t, model_t, tol):
             return f'tilt entry {k}: kinds differ {a[0]} vs {b[0]}'
         n = 3 if a[0] == 'ang' else 5
         for i in range(1, n):
-            if not close(a[i], float(b[i]), tol):
+            if not close(a[i], float(b[i]), tol, unit):
                 return f'tilt entry {k} attribute {i}: impl {a[i]!r} model {float(b[i])!r}'
     return None
 
@@ -144,6 +181,45 @@ def rnd_disp(rng, wl, scale):
     return ['disp', t0, t1, str(d0), str(d1)]
 
 
+def rnd_dispn(rng, wl, scale):
+    """a dispersive element with a trace and/or dispersion polynomial of order 2 or 3 whose arc length at wl is about
+    [scale] metres: strongly curved trace (slope changes by O(1) along the way), dispersion monotonic around 0"""
+    X = F(scale)
+    d = F(rng.choice([-1, 1]) * rng.randint(4, 12), 8) * X
+    to = rng.choice([2, 2, 3, 1])
+    do = rng.choice([1, 2, 3]) if to > 1 else rng.choice([2, 3])
+    a1 = F(rng.choice(TRACE0))
+    a0 = rq(rng, (1, 2, 4), -2, 2) * X / 4 if rng.random() < 0.4 else F(0)
+    a2 = F(rng.choice([1, 2, 4, 6]), 2) / X * rng.choice([1, -1])
+    a3 = F(rng.choice([1, 2]), 4) / (X * X) * rng.choice([1, -1])
+    trace = {1: [a1, a0], 2: [a2, a1, a0], 3: [a3, a2, a1, a0]}[to]
+    c1 = rng.choice([F(1, 8), F(-1, 4), F(1, 2)]) / X
+    c2 = c1 / (8 * X) * rng.choice([1, -1])
+    c3 = c1 / (32 * X * X) * rng.choice([1, -1])
+    hi = {1: [c1], 2: [c2, c1], 3: [c3, F(0), c1]}[do]
+    c0 = F(wl) - sum(c * d ** (len(hi) - i) for i, c in enumerate(hi))
+    return ['dispn', [str(v) for v in trace], [str(v) for v in hi + [c0]]]
+
+
+def add_alias(rng, tl, p=0.3):
+    """with probability p let one element object appear a second time in the list (same object, not an equal copy)"""
+    alias = {}
+    if tl and len(tl) < 6 and rng.random() < p:
+        i = rng.randrange(len(tl))
+        j = rng.randint(0, len(tl))
+        tl.insert(j, list(tl[i]))
+        i = i + 1 if j <= i else i
+        alias[str(j)] = i
+    return alias
+
+
+def make_objs(lentil, elems, alias):
+    objs = [tilt_obj(lentil, e) for e in elems]
+    for j, i in (alias or {}).items():
+        objs[int(j)] = objs[i]
+    return objs
+
+
 def gen_shift(rng):
     exact = rng.random() < 0.35
     z = str(rng.choice([F(1), F(2), F(8), F(1, 2)]) if exact else rng.choice([F(10), F(3), F(8), F(5, 2), F(1, 3)]))
@@ -154,8 +230,12 @@ def gen_shift(rng):
         if exact or rng.random() < 0.65:
             den = (1, 2, 4, 8) if exact else (1, 2, 3, 5, 8, 10)
             tl.append(['ang', str(rq(rng, den)), str(rq(rng, den))])
-        else:
+        elif rng.random() < 0.5:
             tl.append(rnd_disp(rng, wl, F(4)))
+        else:
+            tl.append(rnd_dispn(rng, wl, rng.choice([F(4), F(1, 2), F(1, 100)])))
+    alias = add_alias(rng, tl)
+    n = len(tl)
     t = rng.random()
     pool = PS_POW2 if exact else PS_ANY
     if t < 0.05:
@@ -170,7 +250,7 @@ def gen_shift(rng):
     perm = list(range(n))
     rng.shuffle(perm)
     return {'op': 'shift', 'tilts': tl, 'z': z, 'wl': wl, 'ps': ps, 'os': os_, 'indexing': ix,
-            'exact': exact and ps is not None, 'perm': perm}
+            'exact': exact and ps is not None, 'perm': perm, 'alias': alias}
 
 
 def noncollinear(pts):
@@ -216,6 +296,8 @@ def rnd_px(rng, span):
     t = rng.random()
     if t < 0.1:
         return F(0)
+    if t < 0.14:          # a near-tie: an integer number of samples plus or minus 2**-22
+        return F(rng.randint(-6, 6)) + F(rng.choice([1, -1]), 2 ** 22)
     if t < 0.3:
         return F(rng.choice([1, 2, 3, 5, 7, 9]), 10) * rng.choice([1, -1])
     if t < 0.5:
@@ -232,6 +314,8 @@ def gen_fit(rng, tier):
     deg = rng.random() < 0.05
     if m < 3 or n < 3:
         nseg = 1
+    if rng.random() < 0.06:          # more than 8 segments
+        m, n, nseg, deg = rng.randint(10, 12), rng.randint(10, 12), rng.randint(9, 11), False
     masks = rnd_masks(rng, m, n, nseg, degenerate=deg)
     dx = [rng.choice(DX_ANY), rng.choice(DX_ANY)] if rng.random() < 0.7 else [rng.choice(DX_ANY)] * 2
     nupd = rng.choice([0, 0, 1, 2])
@@ -265,7 +349,12 @@ def gen_fit(rng, tier):
     return {'op': 'fit', 'm': m, 'n': n, 'masks': masks, 'dx': dx, 'opd': rnd_opd(),
             'deltas': [rnd_opd() for _ in range(nupd)], 'degenerate': deg, 'mask3d': nseg == 1 and rng.random() < 0.2,
             'opd_dtype': odt, 'mask_dtype': rng.choice(['float', 'float', 'int', 'bool', 'uint8']),
-            'amp_dtype': rng.choice(['float', 'int'])}
+            'amp_dtype': rng.choice(['float', 'int']),
+            # OPD values times 2**unit_exp (OPDs in metres are ~1e-8): every comparison is relative to that unit
+            'unit_exp': 0 if integer or rng.random() < 0.6 else rng.choice([-30, -20, -40, 10]),
+            # ndarray subclasses are legal array_like inputs: same data, same result
+            'container': rng.choice(['ndarray'] * 6 + ['masked', 'masked1', 'matrix']),
+            'inplace': rng.choice(['False'] * 6 + ['True', '1', 'np.True_', '0'])}
 
 
 def gen_prop(rng, tier):
@@ -325,8 +414,12 @@ def gen_prop(rng, tier):
             if rng.random() < 0.75:
                 a, b = angle(rnd_px(rng, span) / ne, rnd_px(rng, span) / ne)
                 elems.append(['ang', a, b])
-            else:
+            elif rng.random() < 0.6:
                 elems.append(rnd_disp(rng, wl, F(du[1]) * span / (2 * osf * ne)))
+            else:
+                elems.append(rnd_dispn(rng, wl, F(du[1]) * span / (2 * osf * ne)))
+    alias = add_alias(rng, elems, 0.25)
+    ne = len(elems)
     orders = []
     for _ in range(rng.choice([1, 2, 3])):
         perm = list(range(ne))
@@ -344,12 +437,13 @@ def gen_prop(rng, tier):
              'prop_int': prop_shape is not None and prop_shape[0] == prop_shape[1] and rng.random() < 0.5,
              'mask3d': nseg == 1 and rng.random() < 0.2,
              'amp_int': rng.random() < 0.3,
+             'amp_exp': 0 if rng.random() < 0.7 else rng.choice([-30, -40, -45]),      # field amplitudes down to 1e-13
              'omask': omask}
     nupd = rng.choice([0, 1, 2])
     w = [F(1)] if nupd == 0 else ([F(1, 2), F(1, 2)] if nupd == 1 else [F(1, 2), F(1, 4), F(1, 4)])
     return {'op': 'prop', 'm': m, 'n': n, 'masks': masks, 'amp': amp, 'base': base, 'wl': wl, 'dx': dx, 'du': du,
             'z': z, 'os': os_, 'shape': shape, 'prop_shape': prop_shape, 'seg': seg, 'elems': elems,
-            'orders': orders, 'weights': [str(x) for x in w], 'edge': bool(edge), 'forms': forms}
+            'orders': orders, 'weights': [str(x) for x in w], 'edge': bool(edge), 'forms': forms, 'alias': alias}
 
 
 def gen_wave(rng):
@@ -377,15 +471,19 @@ def generate(rng, tier):
 
 def classify(c):
     if c['op'] == 'shift':
-        return f'shift/{c["indexing"]}/' + ('nops' if c['ps'] is None else ('scalar' if not isinstance(c['ps'], list) else 'peraxis'))
+        return (f'shift/{c["indexing"]}/' + ('nops' if c['ps'] is None else ('scalar' if not isinstance(c['ps'], list) else 'peraxis'))
+                + ('/order>1' if has_dispn(c['tilts']) else '') + ('/sameobj' if c.get('alias') else ''))
     if c['op'] == 'fit':
         return (f'fit/seg{len(c["masks"])}/upd{len(c["deltas"])}/{c.get("opd_dtype", "float64")}/mask-{c.get("mask_dtype", "float")}'
+                + (f'/{c["container"]}' if c.get('container', 'ndarray') != 'ndarray' else '') + (f'/unit2^{c["unit_exp"]}' if c.get('unit_exp') else '')
+                + (f'/inplace={c["inplace"]}' if c.get('inplace', 'False') != 'False' else '') + ('/seg>8' if len(c['masks']) > 8 else '')
                 + ('/degenerate' if c.get('degenerate') else ''))
     if c['op'] == 'wave':
         return 'wave/' + ('none' if c['tilt'] is None else f'len{len(c["tilt"])}')
     return (f'prop/seg{len(c["masks"])}/el{len(c["elems"])}/os{c["os"]}' + ('/aniso' if c['du'][0] != c['du'][1] else '')
             + ('/edge' if c.get('edge') else '') + ('/omask' if (c.get('forms') or {}).get('omask') else '')
-            + ('/mask3d' if (c.get('forms') or {}).get('mask3d') else ''))
+            + ('/mask3d' if (c.get('forms') or {}).get('mask3d') else '')
+            + ('/order>1' if has_dispn(c['elems']) else '') + ('/sameobj' if c.get('alias') else ''))
 
 
 def nontrivial(c):
@@ -395,7 +493,7 @@ def nontrivial(c):
         return any(F(v) != 0 for row in c['opd'] for v in row)
     if c['op'] == 'wave':
         return c['tilt'] is not None and len(c['tilt']) == 2
-    return any(F(v) != 0 for e in c['elems'] if e[0] == 'ang' for v in e[1:]) or any(e[0] == 'disp' for e in c['elems']) \
+    return any(F(v) != 0 for e in c['elems'] if e[0] == 'ang' for v in e[1:]) or any(e[0] != 'ang' for e in c['elems']) \
         or any(F(v) != 0 for s in c['seg'] for v in s)
 
 
@@ -416,7 +514,25 @@ def opd_arr(c, a):
     dt = c.get('opd_dtype', 'float64')
     if dt.startswith('int'):
         return np.array([[int(F(v)) for v in row] for row in a], dtype=dt)
-    return np.array([[fl(v) for v in row] for row in a], dtype=float).astype(dt)
+    return np.array([[fl(v) for v in row] for row in a], dtype=float).astype(dt) * np.array(2.0 ** c.get('unit_exp', 0), dtype=dt)
+
+
+def unit_of(c):
+    return 2.0 ** c.get('unit_exp', 0)
+
+
+def contain(c, a, allow_matrix=True):
+    """wrap an array in the ndarray subclass the case asks for (same data)"""
+    k = c.get('container', 'ndarray')
+    if k == 'masked':
+        return np.ma.MaskedArray(a)
+    if k == 'masked1':
+        mk = np.zeros(a.shape, dtype=bool)
+        mk.flat[a.size // 2] = True
+        return np.ma.MaskedArray(a, mask=mk)
+    if k == 'matrix' and allow_matrix and a.ndim == 2:
+        return np.matrix(a)
+    return a
 
 
 def frac_arr(a):
@@ -436,11 +552,11 @@ def prop_setup(c):
     seg_ramps = sum(mk * ramp(m, n, fl(s[0]), fl(s[1]), c['dx']) for mk, s in zip(masks, c['seg']))
     glob_ramp = gm * ramp(m, n, ag, bg, c['dx'])
     return {'masks': masks, 'gm': gm, 'z': z, 'wl': wl, 'xy': xy, 'ag': ag, 'bg': bg, 'base': base,
-            'seg_ramps': seg_ramps, 'glob_ramp': glob_ramp, 'amp': np.array(c['amp'], dtype=float) * gm}
+            'seg_ramps': seg_ramps, 'glob_ramp': glob_ramp, 'amp': np.array(c['amp'], dtype=float) * gm * (1.0 if (c.get('forms') or {}).get('amp_int') else 2.0 ** (c.get('forms') or {}).get('amp_exp', 0))}
 
 
 def rep_names(c):
-    return ['opd'] + [f'plane{k}' for k in range(len(c['orders']))] + ['wavefront', 'fit', 'mixed', 'again']
+    return ['opd'] + [f'plane{k}' for k in range(len(c['orders']))] + ['wavefront', 'fit', 'mixed', 'again', 'branch']
 
 
 def mixed_parts(c, st):
@@ -495,6 +611,8 @@ def enc_fitplane(dx, masks, opd, deltas):
 
 
 def encode(c):
+    if has_dispn(c.get('tilts') or c.get('elems') or []):
+        return None      # trace/dispersion of order > 1 (scipy leastsq/quad) is outside the model: decided by the oracle alone
     if c['op'] == 'shift':
         out = [1, len(c['tilts'])]
         for e in c['tilts']:
@@ -529,6 +647,8 @@ def encode(c):
         items = [enc_fitplane(c['dx'], st['masks'], mo, [])] + [[0] + enc_tilt(e) for e in rest]
         chains.append([1, 2] + C.enc_q(a0) + C.enc_q(b0) + [len(items)] + [x for it in items for x in it])
         chains.append(list(chains[1]))                                                  # again = plane0
+        items = [plain] + [[0] + enc_tilt(e) for e in c['elems']]                       # branch: pupil, then every element
+        chains.append([0] + [len(items)] + [x for it in items for x in it])
         out = [3] + enc_f(c['z']) + enc_f(c['wl']) + enc_ps(list(c['du'])) + enc_f(c['os']) + [len(chains)]
         for ch in chains:
             out += ch
@@ -594,9 +714,12 @@ def windows_of(out):
     return [[int(v) for v in f.extent] for f in out.data]
 
 
-def run_rep(lentil, c, st, wave_tilt, planes):
-    """multiply a fresh wavefront through the planes, propagate, and also propagate field by field"""
-    w = lentil.Wavefront(st['wl']) if wave_tilt is None else lentil.Wavefront(st['wl'], tilt=list(wave_tilt))
+def run_rep(lentil, c, st, wave_tilt, planes, start=None):
+    """multiply a fresh wavefront (or [start]) through the planes, propagate, and also propagate field by field"""
+    if start is not None:
+        w = start
+    else:
+        w = lentil.Wavefront(st['wl']) if wave_tilt is None else lentil.Wavefront(st['wl'], tilt=list(wave_tilt))
     for p in planes:
         w = w * p
     du = (fl(c['du'][0]), fl(c['du'][1]))
@@ -606,7 +729,7 @@ def run_rep(lentil, c, st, wave_tilt, planes):
               prop_shape=None if c['prop_shape'] is None else (c['prop_shape'][0] if fm.get('prop_int') else tuple(c['prop_shape'])))
     if fm.get('omask'):
         kw['mask'] = out_mask(c)
-    shifts = [[float(v) for v in f.shift(z=w.focal_length, wavelength=w.wavelength, pixelscale=du, oversample=c['os'])]
+    shifts = [[float(np.ravel(v)[0]) for v in f.shift(z=w.focal_length, wavelength=w.wavelength, pixelscale=du, oversample=c['os'])]
               for f in w.data]
     tilts = [[stored(t) for t in f.tilt] for f in w.data]
     out = lentil.propagate_dft(w, **kw)
@@ -624,13 +747,13 @@ def run_rep(lentil, c, st, wave_tilt, planes):
 def run_impl(c):
     lentil = C.import_lentil()
     if c['op'] == 'shift':
-        objs = [tilt_obj(lentil, e) for e in c['tilts']]
+        objs = make_objs(lentil, c['tilts'], c.get('alias'))
         ps = None if c['ps'] is None else (fl(c['ps']) if not isinstance(c['ps'], list) else (fl(c['ps'][0]), fl(c['ps'][1])))
         ix = {'ij': 'ij', 'xy': 'xy', 'bad': 'rc'}[c['indexing']]
 
         def one(lst):
             f = lentil.field.Field(data=1, tilt=list(lst))
-            return [float(v) for v in f.shift(z=fl(c['z']), wavelength=fl(c['wl']), pixelscale=ps,
+            return [float(np.ravel(v)[0]) for v in f.shift(z=fl(c['z']), wavelength=fl(c['wl']), pixelscale=ps,
                                               oversample=c['os'], indexing=ix)]
         try:
             res = {'shift': one(objs), 'tilts': [stored(t) for t in objs]}
@@ -644,17 +767,25 @@ def run_impl(c):
         mask = (np.array(masks) if c.get('mask3d') else masks[0]) if len(masks) == 1 else np.array(masks)
         mask = mask.astype({'float': float, 'int': int, 'bool': bool, 'uint8': np.uint8}[c.get('mask_dtype', 'float')])
         amp = sum(masks).astype(int if c.get('amp_dtype') == 'int' else float)
+        ip = {'False': False, 'True': True, '1': 1, 'np.True_': np.True_, '0': 0}[c.get('inplace', 'False')]
         try:
-            p = lentil.Pupil(amplitude=amp, opd=opd_arr(c, c['opd']), mask=mask,
+            opd_caller = contain(c, opd_arr(c, c['opd']))
+            caller_copy = np.array(np.asarray(opd_caller), copy=True)
+            p = lentil.Pupil(amplitude=contain(c, amp), opd=opd_caller, mask=contain(c, mask),
                              pixelscale=(fl(c['dx'][0]), fl(c['dx'][1])), focal_length=1.0)
             p0 = p
             opd_in = np.array(p.opd, copy=True)
-            p = p.fit_tilt()
+            p = p.fit_tilt(inplace=ip)
+            same_obj = p is p0
             untouched = bool(np.array_equal(p0.opd, opd_in) and p0.opd.dtype == opd_in.dtype and p0.tilt == [])
             for d in c['deltas']:
-                p.opd = p.opd + opd_arr(c, d)
-                p = p.fit_tilt()
-            return {'opd': np.asarray(p.opd, dtype=float), 'tilts': [stored(t) for t in p.tilt], 'untouched': untouched}
+                p.opd = contain(c, np.asarray(p.opd) + opd_arr(c, d))      # the sum is formed on plain arrays
+                p = p.fit_tilt(inplace=ip)
+            q = p.rescale(1.0)
+            return {'opd': np.asarray(p.opd, dtype=float), 'tilts': [stored(t) for t in p.tilt], 'untouched': untouched,
+                    'same_obj': same_obj, 'opd_type': type(p.opd).__name__,
+                    'caller_intact': bool(np.array_equal(np.asarray(opd_caller), caller_copy)),
+                    'rescaled_tilts': [stored(t) for t in q.tilt]}
         except Exception as e:
             return {'err': type(e).__name__}
     if c['op'] == 'wave':
@@ -683,7 +814,7 @@ def run_impl(c):
                 res[name] = {'err': type(e).__name__ + ': ' + str(e)[:200]}
         guard('opd', lambda: run_rep(lentil, c, st, None, [mk_pupil(lentil, c, st, opd_seg + st['glob_ramp'])]))
         # one history in one process: the same element objects and the same pupil object serve every chain
-        objs = [tilt_obj(lentil, e) for e in c['elems']]
+        objs = make_objs(lentil, c['elems'], c.get('alias'))
         pupil = mk_pupil(lentil, c, st, opd_seg)
 
         def plane_chain(o):
@@ -713,6 +844,15 @@ def run_impl(c):
         guard('mixed', mixed_rep)
         # the first chain once more, after everything else ran on the same objects
         guard('again', lambda: run_rep(lentil, c, st, None, plane_chain(c['orders'][0])))
+
+        # a shared wavefront: one branch passes a tilt element, then the stem is re-used for the full chain
+        def branch_rep():
+            stem = lentil.Wavefront(st['wl']) * pupil
+            if objs:
+                side = stem * objs[-1]
+                side = side * objs[0]
+            return run_rep(lentil, c, st, None, list(objs), start=stem)
+        guard('branch', branch_rep)
         return res
     return {'err': 'unknown op'}
 
@@ -753,12 +893,12 @@ def compare(c, impl, model):
                 return f'Field.shift component {k}: impl {a!r} model {float(b)!r}'
         return None
     if c['op'] == 'fit':
-        msg = cmp_tilts(impl['tilts'], model['tilts'], TOL)
+        msg = cmp_tilts(impl['tilts'], model['tilts'], TOL, unit_of(c))
         if msg:
             return 'recorded tilt: ' + msg
         mo = np.array([[float(v) for v in row] for row in model['opd']])
         d = np.max(np.abs(mo - impl['opd']))
-        if d > TOL * (1 + np.max(np.abs(mo))):
+        if d > TOL * (unit_of(c) + np.max(np.abs(mo))):
             return f'residual OPD differs from the model by {d:.3g}'
         return None
     if c['op'] == 'prop':
@@ -866,8 +1006,10 @@ def oracle(c, impl):
         if 'err' in impl:
             return f'Field.shift raised {impl["err"]}'
         exp = expected_shift(c)
+        # elements of order > 1 are evaluated by scipy.optimize.leastsq (xtol 1.5e-8; observed 1e-12): 1e-9 for those
+        stol = 1e-9 if has_dispn(c['tilts']) else 1e-11
         for k in (0, 1):
-            if not close(impl['shift'][k], exp[k], 1e-11):
+            if not close(impl['shift'][k], exp[k], stol):
                 return (f'displacement is not focal_length*angle/du*oversample with +x -> +row, +y -> -column '
                         f'(component {k}: {impl["shift"][k]!r}, expected {exp[k]!r})')
             for alt in ('perm', 'rev'):
@@ -884,9 +1026,19 @@ def oracle(c, impl):
         nfit = 1 + len(c['deltas'])
         if len(impl['tilts']) != nseg * nfit:
             return f'{len(impl["tilts"])} tilt entries recorded, expected {nseg * nfit}'
-        if not impl.get('untouched', True):
-            return 'fit_tilt() modified the plane it was called on'
-        scale = 1 + np.max(np.abs(total))
+        ipf = c.get('inplace', 'False')
+        if ipf in ('False', '0'):
+            if not impl.get('untouched', True) or impl.get('same_obj'):
+                return f'fit_tilt(inplace={ipf}) modified the plane it was called on'
+        elif not impl.get('same_obj', True):
+            return f'fit_tilt(inplace={ipf}) did not work on the plane itself'
+        if not impl.get('caller_intact', True):
+            return 'fit_tilt changed the array the caller passed as opd'
+        if impl.get('opd_type', 'ndarray') != 'ndarray':
+            return f'the plane keeps its OPD as {impl["opd_type"]} (array subclasses must be reduced to plain arrays)'
+        if 'rescaled_tilts' in impl and impl['rescaled_tilts'] != impl['tilts']:
+            return 'Plane.rescale(1.0) changed the recorded tilt of a fitted plane'
+        scale = unit_of(c) + np.max(np.abs(total))
         r, cc = mesh(m, n)
         for k, mk in enumerate(masks):
             rec = np.zeros((m, n))
@@ -919,7 +1071,7 @@ def oracle(c, impl):
             r0, r1, c0, c1, _ = c['forms']['omask']       # with mask= the output box is the mask's bounding box
             obox[:] = False
             obox[r0:r1 + 1, c0:c1 + 1] = True
-        for name in rep_names(c):
+        for name in (c.get('_only') or rep_names(c)):
             r = impl.get(name)
             if r is None or 'err' in r:
                 return f'{name}: propagation raised {None if r is None else r["err"]}'
@@ -940,7 +1092,7 @@ def oracle(c, impl):
                 # of the field's metadata shift s lies in it for every admissible choice, and must be evaluated.
                 if name == 'opd':
                     ms = (0.0, 0.0)
-                elif name.startswith('plane') or name in ('wavefront', 'again'):
+                elif name.startswith('plane') or name in ('wavefront', 'again', 'branch'):
                     ms = gshift
                 else:
                     ms = r['shifts'][k]           # fit / mixed: the shift the field's own metadata reports
@@ -953,7 +1105,7 @@ def oracle(c, impl):
                             f'the shift are not evaluated (first: sample {int(i[0])},{int(i[1])}; {len(r["per_field"][k])} field(s) returned)')
                 # the sample the tilt metadata displaces the window centre to must be evaluated whenever it lies
                 # inside the output (the window itself is not pinned)
-                if (name.startswith('plane') or name in ('wavefront', 'again')) and obox.all():
+                if (name.startswith('plane') or name in ('wavefront', 'again', 'branch')) and obox.all():
                     cr, cc_ = int(np.fix(gshift[0])) + shape[0] // 2, int(np.fix(gshift[1])) + shape[1] // 2
                     if min(P) * c['os'] >= 3 and 0 <= cr < shape[0] and 0 <= cc_ < shape[1] and not wk[cr, cc_]:
                         return f'{name}: the displaced window centre of segment {k} (sample {cr},{cc_}) is not evaluated'
@@ -977,7 +1129,7 @@ def oracle(c, impl):
                     if name == 'opd':
                         if sh[ax] != 0:
                             return 'opd: a wavefront without tilt elements reports a shift'
-                    elif (name.startswith('plane') or name in ('wavefront', 'again')) and not close(sh[ax], gshift[ax], TOL):
+                    elif (name.startswith('plane') or name in ('wavefront', 'again', 'branch')) and not close(sh[ax], gshift[ax], TOL):
                         return (f'{name} field {k}: Field.shift axis {ax} is {sh[ax]!r}, the displacement formula gives '
                                 f'{gshift[ax]!r} for its tilt elements')
         return None
@@ -1042,3 +1194,44 @@ def extra(tier, rng):
     report['window_model_equals_implementation'] = agree
     report['window_note'] = 'observation only: the evaluated window of a tilted field is not pinned by C04'
     return {'report': report, 'violations': viol}
+
+
+# ------------------------------------------------------------------ known findings
+def known_match(finding, case, impl):
+    """C04-dispersive-higher-order-propagate: a DispersiveTilt whose trace or dispersion polynomial has order > 1 returns
+    one-element arrays from shift() (scipy.optimize.leastsq), and propagate_dft then raises ValueError. Exactly this: a
+    prop case with such an element in which representations that carry the element as metadata raise ValueError (and
+    only those), and every representation that did propagate satisfies the property."""
+    if finding.get('id') != 'C04-dispersive-higher-order-propagate' or case.get('op') != 'prop':
+        return False
+    if not has_dispn(case['elems']) or not isinstance(impl, dict):
+        return False
+    (_, _), (_, _), rest = mixed_parts(case, prop_setup(case))
+    carriers = [f'plane{k}' for k in range(len(case['orders']))] + ['again', 'branch'] + (['mixed'] if has_dispn(rest) else [])
+    raising = []
+    for name in rep_names(case):
+        r = impl.get(name) or {}
+        raised = str(r.get('err', ''))
+        if raised:
+            if name not in carriers or not raised.startswith('ValueError'):
+                return False
+            raising.append(name)
+    if not raising:
+        return False
+    # every representation that did propagate must still satisfy the property
+    probe = dict(case)
+    probe['_only'] = [n for n in rep_names(case) if n not in raising]
+    return oracle(probe, impl) is None
+
+
+def replay_known(finding):
+    if finding.get('id') != 'C04-dispersive-higher-order-propagate':
+        return False
+    lentil = C.import_lentil()
+    try:
+        p = lentil.Pupil(amplitude=np.ones((4, 4)), pixelscale=0.25, focal_length=8)
+        w = lentil.Wavefront(1.0) * p * lentil.DispersiveTilt(trace=[0.5, 0.2, 0.0], dispersion=[0.5, 0.6])
+        lentil.propagate_dft(w, pixelscale=1, shape=(6, 6), oversample=2)
+        return False
+    except ValueError:
+        return True
